@@ -4,7 +4,8 @@
 
   request  {"op":"trace","cfg":{"resetDisabler":b,"debugHookSafe":b,"redisplayGuard":b,"debug":b},
             "ops":[["enable",even,fail|null] | ["disable"] | ["loadExt",fail|null] | ["unloadExt"]
-                   | ["reloadExt",fail|null] | ["invoke",hook,"ok"|opkind] | ["fresh"]]}
+                   | ["reloadExt",fail|null] | ["invoke",hook,"ok"|opkind] | ["fresh"]
+                   | ["foreign","rebindAst"|"rebindCleanup"|"other"] | ["foreign","addAst"|"rmAst"|"addCleanup"|"rmCleanup",n]]}
   response {"steps":[{state,errored,ndis,astT,loaded,jp:[[depth,id|null]…7],ast:[…],cleanup:[…],
                       delivered|null,work|null,auto,size,ref:{enabled,loaded,errored},refok}…]}
 -/
@@ -44,6 +45,17 @@ def opOf (j : Json) : Except String Op := do
   | "reloadExt" => pure (.reloadExt (← optNat (a[1]!)))
   | "invoke" => pure (.invoke (← hookOf (← (a[1]!).getStr?)) (← outcomeOf (← (a[2]!).getStr?)))
   | "fresh" => pure .freshImporter
+  | "foreign" =>
+    let k ← (a[1]!).getStr?
+    match k with
+    | "rebindAst" => pure (.foreign .rebindAst)
+    | "rebindCleanup" => pure (.foreign .rebindCleanup)
+    | "addAst" => pure (.foreign (.addAst (← (a[2]!).getNat?)))
+    | "rmAst" => pure (.foreign (.rmAst (← (a[2]!).getNat?)))
+    | "addCleanup" => pure (.foreign (.addCleanup (← (a[2]!).getNat?)))
+    | "rmCleanup" => pure (.foreign (.rmCleanup (← (a[2]!).getNat?)))
+    | "other" => pure (.foreign .other)
+    | s => throw s!"foreign {s}"
   | s => throw s!"op {s}"
 
 def cfgOf (j : Json) : Except String Cfg := do
@@ -76,6 +88,7 @@ def viewJ (st : St) (inv : Option Invocation) (r : Ref) : Json :=
     ("jp", Json.arr (JP.all.map fun j => valJ (st.sh.jp j)).toArray),
     ("ast", Json.arr (st.sh.ast.map entryJ).toArray),
     ("cleanup", Json.arr (st.sh.cleanup.map entryJ).toArray),
+    ("astObj", natJ st.sh.astObj), ("cleanupObj", natJ st.sh.cleanupObj),
     ("delivered", match inv with | some i => deliveredJ i.delivered | none => Json.null),
     ("work", match inv with | some i => Json.bool i.work | none => Json.null),
     ("auto", Json.bool (cellAutoImports st)),
